@@ -5,6 +5,7 @@ import (
 	"bytes"
 	"encoding/hex"
 	"encoding/json"
+	"errors"
 	"fmt"
 	"net"
 	"os"
@@ -17,9 +18,9 @@ import (
 	"github.com/BurntSushi/toml"
 	"github.com/grafana/carbon-relay-ng/aggregator"
 	"github.com/grafana/carbon-relay-ng/cfg"
-	"github.com/grafana/carbon-relay-ng/imperatives"
 	"github.com/grafana/carbon-relay-ng/input"
 	"github.com/grafana/carbon-relay-ng/table"
+	uitelnet "github.com/grafana/carbon-relay-ng/ui/telnet"
 	"github.com/grafana/carbon-relay-ng/validate"
 	m20 "github.com/metrics20/go-metrics20/carbon20"
 )
@@ -102,6 +103,65 @@ func TestC14Worker(t *testing.T) {
 		return c
 	}
 	tab := table.New(newCfg())
+	// the real TCP admin interface (ui/telnet on top of the telnet package), and one client connection to it
+	pl, _ := net.Listen("tcp", "127.0.0.1:0")
+	adminAddr := pl.Addr().String()
+	pl.Close()
+	go uitelnet.Start(adminAddr, tab)
+	var adm net.Conn
+	for i := 0; i < 400; i++ {
+		if adm, err = net.Dial("tcp", adminAddr); err == nil {
+			break
+		}
+		time.Sleep(5 * time.Millisecond)
+	}
+	if adm == nil {
+		fmt.Println("WORKER-ERROR admin port", err)
+		return
+	}
+	const banner = "inspecting status is fine, but making changes on-the-fly is an experimental feature\n"
+	admBuf := make([]byte, 1<<16)
+	// readReply reads what the admin port answers up to and including the next prompt line
+	readReply := func() (string, error) {
+		var acc []byte
+		for {
+			adm.SetReadDeadline(time.Now().Add(20 * time.Second))
+			n, err := adm.Read(admBuf)
+			acc = append(acc, admBuf[:n]...)
+			if bytes.HasSuffix(acc, []byte(banner)) {
+				return string(acc[:len(acc)-len(banner)]), nil
+			}
+			if err != nil {
+				return string(acc), err
+			}
+		}
+	}
+	if _, err := readReply(); err != nil {
+		fmt.Println("WORKER-ERROR admin banner", err)
+		return
+	}
+	// admin sends raw bytes the way an operator's client would (one write) and returns the reply text
+	admin := func(raw []byte) (string, error) {
+		if _, err := adm.Write(raw); err != nil {
+			return "", err
+		}
+		rep, err := readReply()
+		if err != nil {
+			return rep, err
+		}
+		if len(raw) > 1000 {
+			// the port reads at most 1024 bytes at a time: a long line is taken as several commands; collect the other replies
+			for {
+				adm.SetReadDeadline(time.Now().Add(50 * time.Millisecond))
+				n, err := adm.Read(admBuf)
+				rep += string(admBuf[:n])
+				if err != nil {
+					break
+				}
+			}
+		}
+		return rep, nil
+	}
 	in := bufio.NewReaderSize(os.Stdin, 1<<22)
 	out := bufio.NewWriter(os.Stdout)
 	fmt.Fprintf(out, "READY\n")
@@ -148,7 +208,17 @@ func TestC14Worker(t *testing.T) {
 				idx, _ := strconv.Atoi(f[2])
 				err = tab.DelDestination(f[1], idx)
 			case st == "!view":
-				_ = tab.Print()
+				_, err = admin([]byte("view\n"))
+			case strings.HasPrefix(st, "!admin "):
+				b, _ := hex.DecodeString(st[7:])
+				if len(bytes.TrimSpace(b)) == 0 {
+					break // (a client that sends nothing gets no reply)
+				}
+				var reply string
+				reply, err = admin(b)
+				if err == nil && !strings.HasPrefix(reply, "ok") {
+					err = errors.New(strings.TrimSpace(reply))
+				}
 			case strings.HasPrefix(st, "!plain "):
 				b, _ := hex.DecodeString(st[7:])
 				err = input.NewPlain(tab).Handle(bytes.NewReader(b))
@@ -159,8 +229,18 @@ func TestC14Worker(t *testing.T) {
 				ms, _ := strconv.Atoi(st[7:])
 				time.Sleep(time.Duration(ms) * time.Millisecond)
 			default:
-				// exactly what the admin port does with a received command
-				err = imperatives.Apply(tab, strings.Join(strings.Split(strings.TrimSpace(st), " "), " "))
+				// through the admin port; the reply is "ok" or the error text
+				if strings.TrimSpace(st) == "" {
+					break
+				}
+				var reply string
+				reply, err = admin([]byte(st + "\n"))
+				if err == nil && !strings.HasPrefix(reply, "ok") {
+					if len(reply) > 200 {
+						reply = reply[:200]
+					}
+					err = errors.New(strings.TrimSpace(reply))
+				}
 			}
 			if err != nil {
 				rep.Rejected++
